@@ -543,6 +543,10 @@ pub trait SEl: Abs + Ord + Clone + num_traits::FromPrimitive + num_traits::NumOp
     const FLOAT: bool;
     fn as_f(&self) -> f64;
     fn as_i(&self) -> i128;
+    /// largest value of an integer element type
+    fn tmax() -> i128 {
+        i128::MAX
+    }
 }
 macro_rules! sel_int {
     ($($t:ty),*) => {$(
@@ -550,6 +554,7 @@ macro_rules! sel_int {
             const FLOAT: bool = false;
             fn as_f(&self) -> f64 { *self as f64 }
             fn as_i(&self) -> i128 { *self as i128 }
+            fn tmax() -> i128 { <$t>::MAX as i128 }
         }
     )*};
 }
@@ -599,6 +604,10 @@ fn build_one<T: SEl, B: BinsBuildingStrategy<Elem = T>>(data: &Array1<T>, width_
     // expected bin count from the public bin_width()
     let r = if T::FLOAT { (mx.as_f() - mn.as_f()) / width.as_f() } else { (mx.as_i() - mn.as_i()) as f64 / (width.as_i().max(1)) as f64 };
     if !(r <= MAX_BINS) {
+        return Ok(Outcome::OutOfDomain);
+    }
+    // integers: the property quantifies over data whose maximum plus one bin width is representable
+    if !T::FLOAT && mx.as_i() + width.as_i() > T::tmax() {
         return Ok(Outcome::OutOfDomain);
     }
     let fuel = 64 * (r as u64 + 2) + 1000;
@@ -832,11 +841,11 @@ fn strat_column(ty: STy, n: usize) -> BoxedStrategy<Vec<i128>> {
                 3 => (base.clone(), proptest::collection::vec(0i128..100_000, n)).prop_map(move |(b, v)| v.into_iter().map(|x| (b + x).max(lo).min(hi)).collect::<Vec<_>>()),
                 2 => (base.clone(), proptest::collection::vec(prop_oneof![8 => Just(7i128), 1 => 0i128..1000], n)).prop_map(move |(b, v)| v.into_iter().map(|x| (b + x).max(lo).min(hi)).collect::<Vec<_>>()),
                 1 => proptest::collection::vec(lo..=hi, n),
-                // right below the type's maximum: range <= 1500 and max <= MAX - 1500, so that the
-                // maximum plus one bin width (<= range) is representable, as the property requires
-                2 => proptest::collection::vec(0i128..1500, n).prop_map(move |v| {
+                // right below the type's maximum (MAX-1040 .. MAX-41); cases whose maximum plus one bin
+                // width is not representable are discarded in the check, as the property requires
+                2 => proptest::collection::vec(0i128..1000, n).prop_map(move |v| {
                     let tmax = hi * 4 + 3;
-                    v.into_iter().map(|x| tmax - 3000 + x).collect::<Vec<_>>()
+                    v.into_iter().map(|x| tmax - 1040 + x).collect::<Vec<_>>()
                 }),
                 1 => (base).prop_map(move |b| vec![b.max(lo).min(hi); n]),
             ]
